@@ -61,7 +61,19 @@ class Run:
         with instrument.use_bus(self.bus):
             self.system = System()
             self.env = self.system.env
-            if not case.get('late'):
+            if case.get('spawned'):
+                # the monitored scheduler is created by another scheduler's start-up action, i.e. during the
+                # initialisation pass of the first simulate(): it must start like any other
+                run_ = self
+
+                def spawn(sched, obj, time, state):
+                    if run_.sched is None:
+                        run_.make_scheduler()
+                        for op in case['pre']:
+                            run_.do_reg(op, False)
+                self.spawner = ActionScheduler([(1000, 'only')], name='spawner')
+                self.spawner.register_object(self.spawner, spawn)
+            elif not case.get('late'):
                 self.make_scheduler()
         self.cyclical = True if case['cyclical'] is None else case['cyclical']
         self.objs = {n: Obj(n) for n in case['objects']}
@@ -165,7 +177,7 @@ class Run:
         self.t_next = now + dur
 
     def dispatch(self, ev):
-        if action_name(ev.action) == '_update_state':
+        if action_name(ev.action) == '_update_state' and instrument.action_owner(ev.action) is self.sched:
             self.shadow_at_dispatch = list(self.shadow)
             if self.calls:
                 self.fail('action_outside_transition', f'actions {self.calls[:2]} ran outside a state change')
@@ -173,7 +185,8 @@ class Run:
     def dispatched(self, ev):
         if self.failed or self.sched is None:
             return
-        if action_name(ev.action) == '_update_state' and not ev.cancelled:
+        if action_name(ev.action) == '_update_state' and not ev.cancelled \
+                and instrument.action_owner(ev.action) is self.sched:
             self.expect_round(self.env.now, 'transition event')
         elif self.calls:
             self.fail('action_outside_transition', f'actions {[(c[0], c[1].name) for c in self.calls[:3]]} ran at '
@@ -199,7 +212,7 @@ class Run:
     def execute(self):
         case = self.case
         with instrument.use_bus(self.bus):
-            if not case.get('late'):
+            if not case.get('late') and not case.get('spawned'):
                 for op in case['pre']:
                     self.do_reg(op, False)
             for t, prio, op in case['script']:
@@ -303,6 +316,8 @@ def gen_case(rng, tie):
             'script': script, 'tie': tie, 'tie_seed': rng.randrange(1 << 30)}
     if len(hs) == 2 and rng.random() < 0.5:
         case['late'] = True
+    elif rng.random() < 0.15:
+        case['spawned'] = True
     return case
 
 
